@@ -370,6 +370,8 @@ class Program(object):
         self.enums = {}
         for u in self.units.values():
             for f in u.functions:
+                if f.q == "main":
+                    f.u = f.u + "#" + u.name          # one main per executable
                 if f.u and f.u in self.funcs:
                     continue
                 key = f.u or ("?%s@%s:%d" % (f.sig, f.file, f.l0))
@@ -504,6 +506,13 @@ class Program(object):
                     seen[v] = (u, nodes[0])
                     work.append(v)
         return seen
+
+    def live(self):
+        """functions reachable from any tool's main (call graph with CHA and address-taken edges)"""
+        if getattr(self, "_live", None) is None:
+            roots = [k for k, f in self.funcs.items() if f.q == "main"]
+            self._live = self.reach(roots)
+        return self._live
 
     def path_to(self, seen, u):
         out = []
